@@ -10,12 +10,12 @@ CONSTANT ExportCuts     \* FALSE in export runs: the outcome of a commit cut in 
 
 VARIABLE hist   \* exported steps (history; hidden by VIEW in the exhaustive configs)
 
-mcvars == <<sem, queue, slot, dirty, db, order, expected, mine, pc, txn, rbSpawned, rbTaken, aborted, broken, hist>>
+mcvars == <<sem, queue, slot, slotLock, reads, pending, dirty, db, order, expected, mine, pc, txn, rbSpawned, rbWaiting, rbTaken, aborted, broken, hist>>
 
 DbJson(log) == [i \in 1..Len(log) |-> [w |-> log[i].w, t |-> log[i].t, j |-> log[i].j, k |-> log[i].k]]
 
 \* what the harness can observe / must compare after a step
-Obs == [sem |-> sem', queue |-> queue', slot |-> slot',
+Obs == [sem |-> sem', queue |-> queue', slot |-> slot', slot_lock |-> slotLock', rb_waiting |-> Cardinality(rbWaiting'),
         pc |-> pc', ndirty |-> Len(dirty'), ndb |-> Len(db'), db |-> DbJson(db'),
         rb_spawned |-> Cardinality(rbSpawned'), rb_taken |-> Cardinality(rbTaken')]
 
@@ -33,26 +33,31 @@ MCWantBegin(w)      == WantBegin(w)      /\ Step("WantBegin", w, "", "")
 MCSetSlot(w)        == SetSlot(w)        /\ Step("SetSlot", w, "", "")
 MCCancelWaiting(w)  == CancelCount < CancelBudget /\ CancelWaiting(w)  /\ Step("CancelWaiting", w, "", "")
 MCCancelAcquired(w) == CancelCount < CancelBudget /\ CancelAcquired(w) /\ Step("CancelAcquired", w, "", "")
-MCTxWrite(w, k)     == TxWrite(w, k)     /\ Step("TxWrite", w, k, "")
+MCLockSlot(w, k)    == LockSlot(w, k)    /\ Step("LockSlot", w, k, "")
+MCUnlockSlot(w)     == UnlockSlot(w)     /\ Step("UnlockSlot", w, "", "")
+MCDropPermitInFlight(w) == DropPermitInFlight(w) /\ Step("DropPermitInFlight", w, "", "")
+MCOrphanEnds(w, f)  == OrphanEnds(w, f)  /\ Step("OrphanEnds", w, "", IF f THEN "finished" ELSE "dropped")
 MCTakeCommit(w)     == TakeCommit(w)     /\ Step("TakeCommit", w, "", "")
 MCTakeRollback(w)   == TakeRollback(w)   /\ Step("TakeRollback", w, "", "")
 MCReleasePermit(w)  == ReleasePermit(w)  /\ Step("ReleasePermit", w, "", "")
 MCDropPermit(w, why) == DropPermit(w)    /\ Step("DropPermit", w, "", why)
 MCCutCommit(w, c)   == ExportCuts /\ CutCommit(w, c) /\ Step("CutCommit", w, "", IF c THEN "committed" ELSE "rolled back")
-MCRbTake(r)         == RbTake(r)         /\ Step("RbTake", r.w, "", "")
+MCRbStart(r)        == RbStart(r)        /\ Step("RbStart", r.w, "", "")
 MCRbRelease(r)      == RbRelease(r)      /\ Step("RbRelease", r.w, "", "")
 MCTerminated        == Terminated /\ UNCHANGED hist
 
 MCWriterStep(w) ==
     \/ MCSetSlot(w) \/ MCTakeCommit(w) \/ MCTakeRollback(w) \/ MCReleasePermit(w)
-    \/ \E k \in Keys : MCTxWrite(w, k)
+    \/ \E k \in Keys \cup {"none"} : MCLockSlot(w, k)
+    \/ MCUnlockSlot(w) \/ MCDropPermitInFlight(w)
+    \/ \E f \in BOOLEAN : MCOrphanEnds(w, f)
     \/ \E why \in DropKinds : MCDropPermit(w, why)
     \/ \E c \in BOOLEAN : MCCutCommit(w, c)
-MCRbStep == \E r \in rbSpawned \cup rbTaken : MCRbTake(r) \/ MCRbRelease(r)
+MCRbStep == \E r \in rbSpawned \cup rbTaken : MCRbStart(r) \/ MCRbRelease(r)
 
 MCNext ==
     \/ \E w \in Writers : MCWantBegin(w) \/ MCWriterStep(w) \/ MCCancelWaiting(w) \/ MCCancelAcquired(w)
-    \/ MCRbStep            \* (reported as one action: RbTake and RbRelease always come in pairs)
+    \/ MCRbStep            \* (reported as one action: RbStart and RbRelease always come in pairs)
     \/ MCTerminated
 
 MCFairness ==
@@ -62,7 +67,7 @@ MCFairness ==
 MCSpec == MCInit /\ [][MCNext]_mcvars
 MCLiveSpec == MCInit /\ [][MCNext]_mcvars /\ MCFairness
 
-NoHistView == <<sem, queue, slot, dirty, db, order, expected, mine, pc, txn, rbSpawned, rbTaken, aborted, broken>>
+NoHistView == <<sem, queue, slot, slotLock, reads, pending, dirty, db, order, expected, mine, pc, txn, rbSpawned, rbWaiting, rbTaken, aborted, broken>>
 
 Export ==
     AllDone => PrintT(<<"REPLAY", ToJson([kind |-> "sqlitetx", writers |-> Cardinality(Writers),
